@@ -50,6 +50,23 @@ pub struct BisyncStateDb {
     sync_pair_hash: String,
 }
 
+/// Nanoseconds since the epoch, negative for a time stamp before 1970 (a file restored from an
+/// old archive): `duration_since(UNIX_EPOCH).unwrap()` made every run on such a tree panic
+fn time_to_ns(time: SystemTime) -> i64 {
+    match time.duration_since(UNIX_EPOCH) {
+        Ok(after) => after.as_nanos() as i64,
+        Err(before) => -(before.duration().as_nanos() as i64),
+    }
+}
+
+fn time_from_ns(ns: i64) -> SystemTime {
+    if ns >= 0 {
+        UNIX_EPOCH + std::time::Duration::from_nanos(ns as u64)
+    } else {
+        UNIX_EPOCH - std::time::Duration::from_nanos(ns.unsigned_abs())
+    }
+}
+
 impl BisyncStateDb {
     /// Database schema version
     const SCHEMA_VERSION: i32 = 1;
@@ -155,17 +172,8 @@ impl BisyncStateDb {
 
     /// Store state for a file
     pub fn store(&mut self, state: &SyncState) -> Result<()> {
-        let mtime_ns = state
-            .mtime
-            .duration_since(UNIX_EPOCH)
-            .unwrap()
-            .as_nanos() as i64;
-
-        let last_sync_ns = state
-            .last_sync
-            .duration_since(UNIX_EPOCH)
-            .unwrap()
-            .as_nanos() as i64;
+        let mtime_ns = time_to_ns(state.mtime);
+        let last_sync_ns = time_to_ns(state.last_sync);
 
         self.conn.execute(
             "INSERT OR REPLACE INTO sync_state (path, side, mtime, size, checksum, last_sync)
@@ -202,10 +210,10 @@ impl BisyncStateDb {
                 Ok(SyncState {
                     path: PathBuf::from(row.get::<_, String>(0)?),
                     side: Side::from_str(&row.get::<_, String>(1)?).unwrap(),
-                    mtime: UNIX_EPOCH + std::time::Duration::from_nanos(mtime_ns as u64),
+                    mtime: time_from_ns(mtime_ns),
                     size: size as u64,
                     checksum: checksum.map(|c| c as u64),
-                    last_sync: UNIX_EPOCH + std::time::Duration::from_nanos(last_sync_ns as u64),
+                    last_sync: time_from_ns(last_sync_ns),
                 })
             },
         );
@@ -237,10 +245,10 @@ impl BisyncStateDb {
             Ok(SyncState {
                 path: PathBuf::from(row.get::<_, String>(0)?),
                 side: Side::from_str(&row.get::<_, String>(1)?).unwrap(),
-                mtime: UNIX_EPOCH + std::time::Duration::from_nanos(mtime_ns as u64),
+                mtime: time_from_ns(mtime_ns),
                 size: size as u64,
                 checksum: checksum.map(|c| c as u64),
-                last_sync: UNIX_EPOCH + std::time::Duration::from_nanos(last_sync_ns as u64),
+                last_sync: time_from_ns(last_sync_ns),
             })
         })?;
 
